@@ -59,12 +59,14 @@ type VC struct {
 	replayFrame *Frame
 	smallHints []string
 	heapTypes map[types.Type]string
+	arrTypes map[string]types.Type
+	mapTypes map[string]*types.Map
 }
 
 func newVC(eng *Engine, unit, mode string, pkg *types.Package) *VC {
 	vc := &VC{eng: eng, unit: unit, mode: mode, declared: map[string]bool{}, strLits: map[string]string{},
 		seenLen: map[string]bool{}, structs: map[string]bool{}, typeIDs: eng.typeIDs, noteSet: map[string]bool{}, pkg: pkg,
-		valueQSet: map[string]bool{}, trusted: map[string]bool{}, svSorts: map[string]string{}, heapTypes: map[types.Type]string{}}
+		valueQSet: map[string]bool{}, trusted: map[string]bool{}, svSorts: map[string]string{}, heapTypes: map[types.Type]string{}, arrTypes: map[string]types.Type{}, mapTypes: map[string]*types.Map{}}
 	vc.mathint = eng.mathint
 	vc.prelude()
 	return vc
